@@ -8,7 +8,7 @@ use mdns_sd::{DaemonEvent, DaemonStatus, Error, HostnameResolutionEvent, Receive
 use proptest::prelude::*;
 use serde::{Deserialize, Serialize};
 use serde_json::json;
-use std::net::IpAddr;
+use std::net::{IpAddr, SocketAddr};
 use std::sync::atomic::{AtomicBool, AtomicUsize, Ordering};
 use std::sync::Arc;
 use std::time::{Duration, Instant};
@@ -61,6 +61,60 @@ pub struct Case {
     pub cmds: Vec<(Cmd, bool, u8)>,
     /// calls made after the Shutdown status has been received
     pub late: Vec<Cmd>,
+    /// the browse opened at the start belongs to a slow client: its channel is filled to capacity
+    /// before the batch and is read only when the daemon has been waiting for it for a while
+    #[serde(default)]
+    pub slow_client: bool,
+}
+
+/// Reads one event from a channel only after it has been full for 25 ms of real time - the client a
+/// daemon blocked in `send` is waiting for. What it takes is kept, in order.
+struct SlowReader {
+    stop: std::sync::Arc<std::sync::atomic::AtomicBool>,
+    taken: std::sync::Arc<std::sync::Mutex<Vec<ServiceEvent>>>,
+    thread: Option<std::thread::JoinHandle<()>>,
+}
+
+impl SlowReader {
+    fn start(rx: Receiver<ServiceEvent>) -> Self {
+        let stop = std::sync::Arc::new(std::sync::atomic::AtomicBool::new(false));
+        let taken = std::sync::Arc::new(std::sync::Mutex::new(Vec::new()));
+        let (stop2, taken2) = (stop.clone(), taken.clone());
+        let thread = std::thread::spawn(move || {
+            let mut full_since: Option<std::time::Instant> = None;
+            while !stop2.load(std::sync::atomic::Ordering::SeqCst) {
+                if rx.is_full() {
+                    match full_since {
+                        None => full_since = Some(std::time::Instant::now()),
+                        Some(t) if t.elapsed() > Duration::from_millis(25) => {
+                            if let Ok(e) = rx.try_recv() {
+                                taken2.lock().unwrap().push(e);
+                            }
+                            full_since = None;
+                        }
+                        _ => {}
+                    }
+                } else {
+                    full_since = None;
+                }
+                std::thread::sleep(Duration::from_millis(1));
+            }
+        });
+        SlowReader { stop, taken, thread: Some(thread) }
+    }
+    fn finish(&mut self) -> Vec<ServiceEvent> {
+        self.stop.store(true, std::sync::atomic::Ordering::SeqCst);
+        if let Some(t) = self.thread.take() {
+            let _ = t.join();
+        }
+        std::mem::take(&mut *self.taken.lock().unwrap())
+    }
+}
+
+impl Drop for SlowReader {
+    fn drop(&mut self) {
+        self.stop.store(true, std::sync::atomic::Ordering::SeqCst);
+    }
 }
 
 enum Reply {
@@ -189,6 +243,38 @@ pub fn check_queue(case: &Case, ctx: &mut CaseCtx) {
         };
     }
     w.advance(3000);
+    // ---- a slow client: answers for the browsed type fill its channel to capacity
+    let mut slow = SlowReader::start(setup_browse.clone());
+    let mut full_before_batch = false;
+    if case.slow_client {
+        let room = 10usize.saturating_sub(setup_browse.len());
+        let ty = Name::from_escaped(C14_TYPES[2]);
+        let mut recs = Vec::new();
+        for k in 0..(room / 2 + room % 2) {
+            let sv = peer::Svc {
+                ty: ty.clone(),
+                sub: None,
+                inst: format!("filler{k}").into_bytes(),
+                host: Name::from_escaped(&format!("fillerhost{k}.local.")),
+                port: 700 + k as u16,
+                txt: vec![0],
+                addrs: vec![if v4 { IpAddr::V4(subnet_v4(0, 120 + k as u8)) } else { IpAddr::V6(subnet_v6(0, 120 + k as u16)) }],
+            };
+            if k < room / 2 {
+                recs.extend(sv.announcement(120, 4500));
+            } else {
+                // one event only: the instance is found, not resolved
+                recs.push(sv.ptr(4500));
+            }
+        }
+        let src = if v4 { SocketAddr::new(IpAddr::V4(subnet_v4(0, 120)), MDNS_PORT) } else { SocketAddr::new(IpAddr::V6(subnet_v6(0, 120)), MDNS_PORT) };
+        let now = w.now;
+        let dm = &mut w.daemons[di];
+        dm.set_now(now);
+        dm.inject(if_index(0), src, peer::response(recs, vec![]));
+        w.settle();
+        full_before_batch = setup_browse.is_full();
+    }
     // ---- the batch: commands enter the queue in order; loop iterations only where asked for
     let mut replies: Vec<(usize, Cmd, Result<Reply, Error>)> = Vec::new();
     let mut t_first_shutdown_sent = None;
@@ -210,6 +296,9 @@ pub fn check_queue(case: &Case, ctx: &mut CaseCtx) {
     }
     w.daemons[di].dirty = true;
     w.advance(1500);
+    let taken_by_slow_client = slow.finish();
+    ctx.class_if(case.slow_client && full_before_batch, "slow-client-channel-full-before-the-batch");
+    ctx.class_if(case.slow_client && full_before_batch && taken_by_slow_client.len() <= 1, "slow-client-read-at-most-one-event");
     let detail = |w: &World| format!("cmds: {:?}\n--- history (tail) ---\n{}", case.cmds, render_log(&w.daemons[di].log, true, 40));
     macro_rules! fail {
         ($sig:expr, $($arg:tt)*) => {{
@@ -334,7 +423,9 @@ pub fn check_queue(case: &Case, ctx: &mut CaseCtx) {
     // ---- what the shutdown does for what was open: SearchStopped once, last
     let stopped_in_batch_browse = case.cmds[..p].iter().any(|c| c.0 == Cmd::StopBrowse(2) || c.0 == Cmd::Browse(2) || c.0 == Cmd::BrowseCache(2));
     {
-        let (v, _closed) = drain(&setup_browse);
+        let (rest, _closed) = drain(&setup_browse);
+        let mut v = taken_by_slow_client;
+        v.extend(rest);
         let stopped = v.iter().filter(|e| matches!(e, ServiceEvent::SearchStopped(_))).count();
         if !stopped_in_batch_browse && (stopped != 1 || !matches!(v.last(), Some(ServiceEvent::SearchStopped(_)))) {
             fail!("C14/open-browse-not-stopped-by-shutdown", "the browse opened at the start received {stopped} SearchStopped; events: {:?}", v.iter().map(crate::sim::render_service_event).collect::<Vec<_>>());
@@ -439,12 +530,12 @@ pub fn queue_strategy() -> BoxedStrategy<Case> {
         any::<prop::sample::Index>(),
         prop::bool::weighted(0.3),
         0u8..3,
-        prop::collection::vec(cmd_strategy(), 1..5),
+        (prop::collection::vec(cmd_strategy(), 1..5), prop::bool::weighted(0.25)),
     )
-        .prop_map(|(ifs, mut cmds, at, step, h, late)| {
+        .prop_map(|(ifs, mut cmds, at, step, h, (late, slow_client))| {
             let p = at.index(cmds.len() + 1);
             cmds.insert(p, (Cmd::Shutdown, step, h));
-            Case { ifs, cmds, late }
+            Case { ifs, cmds, late, slow_client }
         })
         .boxed()
 }
@@ -465,7 +556,7 @@ fn queue_enumerated(mut i: u64) -> Case {
         for (k, c) in cmds.iter_mut().enumerate() {
             c.1 = steps >> k & 1 == 1;
         }
-        Case { ifs: ifs.clone(), cmds, late: late.clone() }
+        Case { ifs: ifs.clone(), cmds, late: late.clone(), slow_client: false }
     };
     if i < 2 {
         return mk(vec![], 0, i);
@@ -754,7 +845,7 @@ pub fn run(tier: Tier) -> i32 {
         &mut agg,
         &Part {
             name: "queue-positions",
-            rule: "0-9 commands of 13 kinds (browse, browse_cache, stop_browse, resolve_hostname with/without timeout, stop_resolve_hostname, register, unregister, verify, monitor, get_metrics, status, option setters, further shutdowns) issued from three clones with a shutdown inserted at a generated position and loop iterations after a quarter of the commands, on 1-2 interfaces; non-trivial = always (classified by queue position)",
+            rule: "0-9 commands of 13 kinds (browse, browse_cache, stop_browse, resolve_hostname with/without timeout, stop_resolve_hostname, register, unregister, verify, monitor, get_metrics, status, option setters, further shutdowns) issued from three clones with a shutdown inserted at a generated position and loop iterations after a quarter of the commands, on 1-2 interfaces; in a quarter of the cases the browse opened at the start belongs to a slow client whose channel is full when the batch begins; non-trivial = always (classified by queue position)",
             cases: scale(tier.pick(40_000, 1_000_000)),
             max_shrink_iters: 500,
             strategy: &queue_strategy,
@@ -774,6 +865,8 @@ pub fn run(tier: Tier) -> i32 {
     );
     agg.require_class("queue-positions:calls-queued-behind-shutdown", 5_000);
     agg.require_class("queue-positions:loop-iteration-inside-the-batch", 5_000);
+    // (depends on real time: the slow client waits 25 ms before it reads; a low floor)
+    agg.require_class("queue-positions:slow-client-read-at-most-one-event", 300);
     agg.require_class("real-threads:shutdown-in-the-middle-of-the-calls", 200);
     agg.finish()
 }
